@@ -49,6 +49,7 @@ type scriptSocket struct {
 	writes   int64
 	drain    func(s *scriptSocket) // called when the script is exhausted, before EOF is reported
 	readErr  bool
+	end      endGuard
 }
 
 type envMirror struct {
@@ -66,7 +67,7 @@ func (s *scriptSocket) ReadJSON(v interface{}) error {
 		if d != nil {
 			d(s)
 		}
-		return io.EOF
+		return s.end.ended()
 	}
 	f := s.frames[s.next]
 	s.next++
@@ -287,10 +288,17 @@ func (w *worker) runCase(c *gcase, soft, hard, cpuBudget time.Duration) *caseRes
 		drainOutcome = vlib.WaitCond(func() bool { return len(s.owed()) == 0 }, activity, soft, hard)
 		owed = s.owed()
 	}
-	if guard("ServeJSONSocket", func() {
-		conn := graphql.CreateConnection(ctx, sock, schema, graphql.WithMinRerunInterval(time.Millisecond))
+	wsCtx, wsCancel := context.WithCancel(ctx)
+	defer wsCancel()
+	sock.end.cancel = wsCancel
+	wsReturned := guard("ServeJSONSocket", func() {
+		conn := graphql.CreateConnection(wsCtx, sock, schema, graphql.WithMinRerunInterval(time.Millisecond))
 		conn.ServeJSONSocket()
-	}) {
+	})
+	if n := sock.end.excessReads(); n > 0 {
+		res.Hangs = append(res.Hangs, fmt.Sprintf("ServeJSONSocket: the read loop kept reading after a permanent non-close read error (%d reads)", n))
+	}
+	if wsReturned {
 		sock.mu.Lock()
 		var ts []string
 		for t := range sock.outTypes {
